@@ -80,7 +80,7 @@ KINDS = ['static'] * 10 + ['dyn', 'dyn-v2', 'dyn-async', 'dyn-atterr', 'dyn-rais
 
 def plan(tier, seed):
     cases = []
-    mult = 1 if tier == 'quick' else 40
+    mult = 4 if tier == 'quick' else 40
     base = seed * 1000003
     # sweep: 64 cases x 4 opcodes = all 256 opcodes, per repetition
     for rep in range(mult):
